@@ -69,6 +69,26 @@ func c02TagCase(r *Rng, g *EvGen) (*mocrelay.ReqFilter, *mocrelay.Event) {
 			e.Tags = append(e.Tags, mocrelay.Tag{name, pick(r, vals)})
 		}
 	}
+	if r.P(15) {
+		// a tag whose NAME + VALUE spells a condition's name + listed value with the split moved:
+		// #e:["v1"] vs ["ev","1"], ["ev1"], ["ev1",""] — name and value must be compared separately
+		for x, vs := range f.Tags {
+			if len(vs) == 0 {
+				continue
+			}
+			v := pick(r, vs)
+			k := r.Range(1, len(v))
+			switch r.Intn(3) {
+			case 0:
+				e.Tags = append(e.Tags, mocrelay.Tag{x + v[:k], v[k:]})
+			case 1:
+				e.Tags = append(e.Tags, mocrelay.Tag{x + v})
+			default:
+				e.Tags = append(e.Tags, mocrelay.Tag{x + v, ""})
+			}
+			break
+		}
+	}
 	if r.P(30) {
 		f.Limit = ptr(int64(r.Range(0, 2)))
 	}
